@@ -144,10 +144,13 @@ def run(ctx, eng):
     ok = len(loops) == 1
     if ok:
         lp = loops[0]
-        ok = isinstance(lp.iter, ast.Attribute) and \
-            lp.iter.attr == 'incoming_buffer' and not any(
-                isinstance(x, (ast.Break, ast.Return, ast.Continue))
-                for x in ast.walk(lp))
+        # what is iterated is the frame buffer (directly or through a local
+        # alias: decided on the value the loop sees on every path)
+        its = {cm.attr_chain(e.iterable) for p in eng.I.run(f3)
+               for e in p.events if e.kind == 'iter' and e.node is lp}
+        ok = its == {'self.incoming_buffer'} and not any(
+            isinstance(x, (ast.Break, ast.Return, ast.Continue))
+            for x in ast.walk(lp))
     calls_in_loop = [x for x in ast.walk(loops[0])
                      if isinstance(x, ast.Call)] if loops else []
     ok = ok and any(isinstance(c.func, ast.Attribute) and
